@@ -1211,7 +1211,7 @@ func (cg *cgen) emitMore(b ...byte) {
 }
 
 func (cg *cgen) emitUint8(op op.Opcode, i int) {
-	assert.That(0 <= i && i < math.MaxUint8)
+	assert.That(0 <= i && i <= math.MaxUint8)
 	cg.emit(op, byte(i))
 }
 
